@@ -230,7 +230,7 @@ def clone_value(v, memo=None):
     if isinstance(v, PDict):
         o = PDict()
         memo[id(v)] = o
-        o.d = {k: clone_value(x, memo) for k, x in v.d.items()}
+        o.d = {(clone_value(k, memo) if isinstance(k, Obj) else k): clone_value(x, memo) for k, x in v.d.items()}
         return o
     if isinstance(v, PStream):
         o = PStream(v.buf)
